@@ -610,6 +610,32 @@ func (w *World) computeModsets() {
 						}
 						continue
 					}
+					if name == "encoding/binary.Write" || name == "(*github.com/blugelabs/bluge_segment_api.Data).WriteTo" {
+						// expanded into an io.Writer.Write through the interface
+						ms["G$allocTop"] = true
+						ms[w.ElemHeap(types.Typ[types.Uint8])] = true
+						var wa ssa.Value = c.Args[0]
+						if name != "encoding/binary.Write" {
+							wa = c.Args[1]
+						}
+						if iface, ok := wa.Type().Underlying().(*types.Interface); ok {
+							if ct, ok := w.Spec.Contracts["(io.Writer).Write"]; ok {
+								for i := 0; i < iface.NumMethods(); i++ {
+									if iface.Method(i).Name() == "Write" {
+										for _, h := range w.modHeapsOfContract(ct, iface.Method(i).Type().(*types.Signature)) {
+											ms[h] = true
+										}
+									}
+								}
+							}
+							for _, g := range w.FnAll {
+								if g.Signature.Recv() != nil && g.Name() == "Write" && types.Implements(g.Signature.Recv().Type(), iface) {
+									edges = append(edges, edge{f, g})
+								}
+							}
+						}
+						continue
+					}
 					if ct, ok := w.Spec.Contracts[name]; ok {
 						for _, h := range w.modHeapsOfContract(ct, callee.Signature) {
 							ms[h] = true
